@@ -209,7 +209,8 @@ class RuntimeAssertionFeedback(AssertionFeedback):
         """ Retrieve any sandbox contexts associated with these values. """
         contexts = []
         for wrapped_value in wrapped_values:
-            if wrapped_value.is_sandboxed:
+            if wrapped_value.is_sandboxed and wrapped_value.context:
+                # (the record of the execution may have been cleared since)
                 contexts.append(wrapped_value.context)
             if isinstance(wrapped_value.value, Sandbox):
                 run_contexts = wrapped_value.value.get_context()
@@ -331,8 +332,12 @@ class RuntimePrintingAssertionFeedback(RuntimeAssertionFeedback):
                 actual_output = self.report.format.output(actual_output)
         # Sandboxed value
         else:
-            actual_output = chomp(left.context[-1].output)
-            if not actual_output:
+            # (there is no record when the value did not come from an execution,
+            # or when the record has been cleared since)
+            actual_output = chomp(left.context[-1].output) if left.context else ""
+            if not left.context:
+                actual = "There is no record of what was printed."
+            elif not actual_output:
                 actual = "The function did not print."
                 actual_output = ""
             else:
